@@ -78,9 +78,14 @@ def _mk_cases(seed, shard, count):
         data, sites = gen.encode(msg, want_sites=True)
         if r < 0.33:
             cases.append(("valid", data))
+            if rng.random() < 0.15:
+                cases.append(("twin-of-prev:valid", gen.encode(dict(msg, order="B" if msg["order"] == "l" else "l"))))
         elif r < 0.45:
             m2, cls = gen.structural_variant(rng, msg)
             cases.append((cls, gen.encode(m2)))
+            if rng.random() < 0.5:
+                # the same logical message in the other byte order: acceptance must not depend on the byte order
+                cases.append(("twin-of-prev:" + cls, gen.encode(dict(m2, order="B" if m2["order"] == "l" else "l"))))
         elif r < 0.50 and len(data) <= 200:
             for cut in range(0, len(data), max(1, len(data) // 24)):
                 cases.append(("truncate-sweep", data[:cut]))
@@ -241,6 +246,19 @@ def _worker(args):
             part.count("fd-loader-cases")
             continue
         _judge_one(part, cls, data, res[2 * i], res[2 * i + 1])
+        if cls.startswith("twin-of-prev:") and i > 0:
+            a, b2 = (res[2 * i - 2], res[2 * i - 1]), (res[2 * i], res[2 * i + 1])
+            if all(isinstance(x, dict) and "crash" not in x for x in a + b2):
+                part.count("byte-order-twins")
+                acc_a = (a[0].get("msg") is not None, len(a[1].get("msgs", [])), bool(a[1].get("corrupt")))
+                acc_b = (b2[0].get("msg") is not None, len(b2[1].get("msgs", [])), bool(b2[1].get("corrupt")))
+                if acc_a != acc_b:
+                    o = wire.validate(data)
+                    part.violation("%s:verdict-depends-on-byte-order:%s" % (PROP, (o.reason or o.kind).split(":")[0]),
+                                   "the same logical message is %s in one byte order and %s in the other"
+                                   % ("accepted" if acc_a[0] else "rejected", "accepted" if acc_b[0] else "rejected"),
+                                   {"class": cls, "hex": data.hex()[:4096], "twin_hex": cases[i - 1][1].hex()[:4096], "oracle": repr(o),
+                                    "accepted(demarshal, loader messages, loader corrupt)": [list(acc_a), list(acc_b)]})
         if i < 2 and shard == 0:
             part.sample({"class": cls, "hex": data.hex()[:600], "oracle": repr(wire.validate(data))})
     for extra in res[2 * len(cases):]:
